@@ -2150,6 +2150,77 @@ fn connect_phase(connack: &rc::Connack, auth: Option<&rc::Auth>, cut: Option<u16
 
 pub struct C16;
 
+/// One read that fills the buffer the library offered exactly (512 / 1024 / 1536 bytes of whole
+/// packets, or one byte more or less), and then silence: a wake-only executor and one that also
+/// polls unwoken tasks must both hand every message to the stream.
+fn c16_exact_fill(total: usize) -> Option<Failure> {
+    use crate::world::World;
+    let plan = WritePlan::default();
+    let mut prints = vec![];
+    let mut sent = 0usize;
+    for sweeping in [false, true] {
+        let mut w = World::new();
+        if connect_and_run(&mut w, ConnectSpec::default(), &default_connack(), &plan).is_err() {
+            return None;
+        }
+        let mut tr = Tracker::new();
+        tr.skip_existing(&mut w);
+        let s = w.start_op(0, OpSpec::Subscribe(tagged_subscribe(0, 1)))?;
+        settle(&mut w, &plan, true);
+        tr.update(&mut w);
+        let (spid, sid) = (tr.pid(s)?, tr.sub_id(s)?);
+        feed_packet(&mut w, &rc::Packet::Suback(rc::AckList { pid: spid, reasons: vec![0], ..Default::default() }), &rc::Form::canonical());
+        settle(&mut w, &plan, true);
+        let stream = w.make_stream(s)?;
+        // whole packets adding up to exactly `total` bytes
+        let mk = |n: usize| rc::encode(&rc::Packet::Publish(rc::Publish { qos: 0, topic: "c16/fill".into(), payload: vec![0x33; n], subscription_ids: vec![sid], ..Default::default() }), &rc::Form::canonical());
+        let base = mk(0).len();
+        let mut bytes = vec![];
+        let mut count = 0usize;
+        while total - bytes.len() >= 2 * (base + 40) {
+            bytes.extend(mk(40));
+            count += 1;
+        }
+        let rest = total - bytes.len();
+        if rest < base {
+            return None;
+        }
+        // the last packet takes what is left (its remaining length may need a second byte)
+        let mut last = mk(rest - base);
+        if last.len() != rest {
+            last = mk(rest - base - 1);
+        }
+        if last.len() != rest {
+            return None;
+        }
+        bytes.extend(last);
+        count += 1;
+        sent = count;
+        w.tick();
+        w.reader.feed(bytes);
+        settle(&mut w, &plan, true);
+        if sweeping {
+            w.sweep(true);
+            settle(&mut w, &plan, true);
+        }
+        if let Some(p) = first_panic(&w) {
+            return Some(Failure { sig: format!("PANIC/{}", panic_sig(&p)), msg: p });
+        }
+        w.drain_stream(stream);
+        prints.push((w.streams[stream].items.len(), w.reader.unread(), w.run_result.clone()));
+    }
+    if prints[0] != prints[1] || prints[0].0 != sent {
+        return Some(Failure {
+            sig: "C16/trace-differs/read-fills-the-buffer-exactly/stream-items".into(),
+            msg: format!(
+                "{sent} whole PUBLISH packets arriving in ONE read of exactly {total} bytes, then silence: wake-only executor -> {} stream items ({} bytes unread, run {:?}); executor that also polls unwoken tasks -> {} stream items ({} bytes unread, run {:?})",
+                prints[0].0, prints[0].1, prints[0].2, prints[1].0, prints[1].1, prints[1].2
+            ),
+        });
+    }
+    None
+}
+
 /// One script, two executors: a subscription with its stream, `n` QoS 1 publishes in flight, then
 /// the transport reports ONE error of the given kind, then the acknowledgements and a message
 /// arrive. Executor A polls only
@@ -2426,6 +2497,11 @@ impl Property for C16 {
             return o;
         }
         o.class("transient-read-fault-script");
+        if let Some(f) = c16_exact_fill([512usize, 1024, 1536, 511, 513, 2048][(h / 63 % 6) as usize]) {
+            o.fail = Some(f);
+            return o;
+        }
+        o.class("read-fills-the-buffer-exactly-script");
         o.nontrivial = split >= 1 && completions >= 1;
         if split > 0 {
             o.class("inbound-packet-split-over-reads");
